@@ -354,6 +354,7 @@ func init() {
 			complete := true
 			eval := func(c c08Case, nontrivial bool, size int) {
 				r.Evals.Add(1)
+				r.Journal(c)
 				r.Transitions.Add(1)
 				ok, sig, detail := c08Eval(c)
 				if nontrivial {
